@@ -37,6 +37,16 @@ class SliceRef:
     def __init__(self, items, lo, hi): self.items, self.lo, self.hi = items, lo, hi
     def __repr__(self): return f"&[{self.lo}..{self.hi}]"
 
+class SymStr:
+    """&str whose characters are symbolic code points (z3 Int); byte offsets are sums of UTF-8 lengths"""
+    __slots__ = ('chars',)
+    def __init__(self, chars): self.chars = chars
+    @staticmethod
+    def len_utf8(c): return z3.If(c < 0x80, 1, z3.If(c < 0x800, 2, z3.If(c < 0x10000, 3, 4)))
+    def offset(self, k):
+        if k == 0: return 0
+        return z3.simplify(z3.Sum([SymStr.len_utf8(c) for c in self.chars[:k]]))
+
 class IterObj:
     __slots__ = ('kind', 'src', 'a', 'b', 'clo')
     def __init__(self, kind, src=None, a=0, b=0, clo=None): self.kind, self.src, self.a, self.b, self.clo = kind, src, a, b, clo
@@ -292,7 +302,7 @@ class Machine:
             if k == 'Neg': return ('neg', self.c_operand(fn, m.group(2)))
             if k == 'PtrMetadata': return ('ptrmeta', self.c_operand(fn, m.group(2)))
             if k == 'Len': return ('len', self.c_place(fn, m.group(2)))
-        m2 = re.match(r'^(copy|move|const) (.*) as (.*) \((\w+).*\)$', s, re.S)
+        m2 = re.match(r'^(copy|move|const) (.*) as (.*) \((IntToInt|IntToFloat|FloatToInt|FloatToFloat|PtrToPtr|FnPtrToPtr|Transmute|Subtype|PointerExposeProvenance|PointerWithExposedProvenance|PointerExposeAddress|PointerCoercion)(?:\(.*\))?(?:, \w+)?\)$', s, re.S)
         if m2:
             return ('cast', self.c_operand(fn, m2.group(1) + ' ' + m2.group(2)), m2.group(3).strip(), m2.group(4))
         if s.startswith(('copy ', 'move ', 'const ', 'no_retag ')): return ('use', self.c_operand(fn, s))
@@ -361,7 +371,7 @@ class Machine:
         if k == 'deref':
             v = self.place_ref(fr, p[1]).get()
             if v.__class__ is Ref: return v
-            if isinstance(v, (SliceRef, str, IterObj)): return Ref([v], 0)
+            if isinstance(v, (SliceRef, str, IterObj, SymStr)): return Ref([v], 0)
             raise Unsupported(f'deref of {v!r}')
         if k == 'downcast': return self.place_ref(fr, p[1])
         if k == 'index' or k == 'cindex' or k == 'cindex_end':
@@ -517,6 +527,14 @@ class Machine:
             elif op == 'BitAnd' and z3.is_bool(ea) and z3.is_bool(eb): r = z3.And(ea, eb)
             elif op == 'BitOr' and z3.is_bool(ea) and z3.is_bool(eb): r = z3.Or(ea, eb)
             elif op == 'BitXor' and z3.is_bool(ea) and z3.is_bool(eb): r = z3.Xor(ea, eb)
+            elif op in ('Add', 'AddUnchecked') and z3.is_int(ea) and z3.is_int(eb): r = ea + eb
+            elif op in ('Sub', 'SubUnchecked') and z3.is_int(ea) and z3.is_int(eb): r = ea - eb
+            elif op.endswith('WithOverflow') and z3.is_int(ea) and z3.is_int(eb):
+                # mathematical integers + explicit overflow flag (the flag is what the following assert branches on)
+                bits = INT_BITS.get(ity or 'usize', 64); signed = bool(ity) and ity[0] == 'i'
+                lo, hi = (-(1 << (bits - 1)), (1 << (bits - 1)) - 1) if signed else (0, (1 << bits) - 1)
+                v = ea + eb if op[0] == 'A' else (ea - eb if op[0] == 'S' else ea * eb)
+                return Agg('tuple', None, [Sym(z3.simplify(v)), Sym(z3.simplify(z3.Or(v < lo, v > hi)))])
             else: raise Unsupported('symbolic ' + op)
             return Sym(z3.simplify(r))
         if isinstance(a, Agg) or isinstance(b, Agg): raise Unsupported(f'binop {op} on aggregate')
